@@ -110,6 +110,19 @@ class Store:
             self.dict_a[key] = text
 
 
+    def delete(self, ns, name: str) -> None:
+        """Remove the template from the backing store (a later edit brings it back)."""
+        key = f"{ns}/{name}" if ns is not None else name
+        if self.kind in ("cfs", "cnsfs"):
+            try:
+                os.unlink(os.path.join(self.scratch.path, key))
+            except FileNotFoundError:
+                pass
+        else:
+            self.dict_a.pop(key, None)
+            self.dict_b.pop(key, None)
+
+
 def build(case, scratch):
     from liquid import CachingChoiceLoader
     from liquid import CachingDictLoader
@@ -187,6 +200,7 @@ def evaluate(case) -> Verdict:
         seen_modes: dict = {}
         seen_ns: dict = {}
         edited = False
+        deleted: set = set()
         nontrivial = False
         for step, op in enumerate(case["ops"]):
             if op[0] == "edit":
@@ -195,7 +209,15 @@ def evaluate(case) -> Verdict:
                     continue
                 version += 1
                 store.write(ns, name, version, back=len(op) > 3 and bool(op[3]))
+                deleted.discard((ns, name))
                 edited = True
+                continue
+            if op[0] == "delete":
+                _, ns, name = op[:3]
+                if (ns, name) in store.versions:
+                    store.delete(ns, name)
+                    deleted.add((ns, name))
+                    edited = True
                 continue
             got = _request(cenv, op)
             want = _request(tenv, op)
@@ -212,6 +234,11 @@ def evaluate(case) -> Verdict:
             if got == want:
                 continue
             clause = "other"
+            if (not case["auto_reload"] and got[0] == "ok" and want[0] != "ok" and how != "ctx" and (eff_ns, name) in deleted
+                    and got[1].get("source") in store.versions.get((eff_ns, name), [])):
+                continue  # without auto reload a template removed from the store may go on being served from the cache
+            if not case["auto_reload"] and how == "ctx" and deleted:
+                continue  # (rendered through tags after a removal without auto reload: any mixture of cached parts is acceptable)
             if got[0] != want[0] or got[0] != "ok":
                 clause = f"{want[0]}-vs-{got[0] if got[0] == 'ok' else got[1]}"
             else:
@@ -252,7 +279,9 @@ def cases(draw):
     ops = []
     for _ in range(r.randint(3, 12)):
         c = r.random()
-        if c < 0.2:
+        if c < 0.06:
+            ops.append(["delete", r.choice([None, *NSS]) if kind in ("cns", "cnsfs") else None, r.choice(NAMES)])
+        elif c < 0.2:
             ops.append(["edit", r.choice([None, *NSS]) if kind in ("cns", "cnsfs") else None, r.choice(NAMES), r.random() < 0.3])
         else:
             how = r.choice([None, "kw", "ctx"])
